@@ -251,6 +251,31 @@ def validate(rep, events, pid, label):
     from verifkit import tlc
     from verifkit.util import scratch
     from verifkit.bind import sem
+    # AccessTrace keeps the first event of every group in its state: one TLC run over the whole thorough-tier
+    # trace (200 000 events) is quadratic.  Groups never span chunks, so the trace is validated chunk by chunk.
+    CH = 12000
+    if len(events) > CH:
+        accepted, chunk, last_grp = 0, [], None
+        k = 0
+        for e in events:
+            if len(chunk) >= CH and (e["grp"] == 0 or e["grp"] != last_grp):
+                accepted += _validate_chunk(rep, chunk, pid, f"{label} chunk {k}")
+                chunk, k = [], k + 1
+            chunk.append(e)
+            last_grp = e["grp"]
+        if chunk:
+            accepted += _validate_chunk(rep, chunk, pid, f"{label} chunk {k}")
+    else:
+        accepted = _validate_chunk(rep, events, pid, label)
+    rep.add("traces_validated_against_impl", accepted)
+    rep.add("trace_events", len(events))
+    return accepted
+
+
+def _validate_chunk(rep, events, pid, label):
+    from verifkit import tlc
+    from verifkit.util import scratch
+    from verifkit.bind import sem
     remaining = events
     accepted = 0
     with scratch("acc-") as d:
@@ -284,8 +309,6 @@ def validate(rep, events, pid, label):
             # keep the group-defining first events out of the way: drop the whole group of the rejected event
             g = e["grp"]
             remaining = [x for x in remaining[pos:] if g == 0 or x["grp"] != g]
-    rep.add("traces_validated_against_impl", accepted)
-    rep.add("trace_events", len(events))
     return accepted
 
 
